@@ -3,7 +3,7 @@ driver and in-Coq vm_compute shard), verdict, evidence, known findings.  See DES
 import fcntl
 import hashlib
 import json
-import os
+import os, shutil
 import random
 import re
 import subprocess
@@ -119,7 +119,21 @@ def build(timeout=1500):
         try:
             sys.path.insert(0, os.path.join(VERIF, "harness"))
             import py2coq
-            tstat = py2coq.regenerate(SRC, gen_dir())
+            gd = gen_dir()
+            tstat = py2coq.regenerate(SRC, gd)
+            if gd != os.path.join(COQ, "gen"):
+                # private directories of scratch trees: remember the tree, drop those whose tree is gone
+                with open(os.path.join(gd, ".tree"), "w") as f:
+                    f.write(os.path.realpath(REPO))
+                for d in os.listdir(BUILD):
+                    dd = os.path.join(BUILD, d)
+                    if d.startswith("gen_") and os.path.isdir(dd) and dd != gd:
+                        try:
+                            tree = open(os.path.join(dd, ".tree")).read().strip()
+                        except OSError:
+                            tree = ""
+                        if not tree or not os.path.isdir(tree):
+                            shutil.rmtree(dd, ignore_errors=True)
         except ImportError:
             tstat = {"status": "translator not built yet"}
         log = []
